@@ -42,6 +42,10 @@ pub struct Case {
     pub phase: Vec<Tx>,
     pub stop: Stop,
     pub after: Vec<Tx>,
+    /// after a clean restart: crash image in the restored subscription's second life
+    /// (1: idle right after the restart, 2: right after new transactions, 3: after they settled)
+    #[serde(default)]
+    pub second_crash: u8,
 }
 
 pub fn case_strategy() -> impl Strategy<Value = Case> {
@@ -51,8 +55,8 @@ pub fn case_strategy() -> impl Strategy<Value = Case> {
         1 => Just(Stop::CrashMidPhase),
         1 => Just(Stop::CrashIdle),
     ];
-    (0usize..QUERIES.len(), any::<u8>(), proptest::collection::vec(tx_strategy(), 2..8), proptest::collection::vec(tx_strategy(), 2..7), stop, proptest::collection::vec(tx_strategy(), 1..5))
-        .prop_map(|(qi, p, pre, phase, stop, after)| Case { q: QUERIES[qi], p, pre, phase, stop, after })
+    (0usize..QUERIES.len(), any::<u8>(), proptest::collection::vec(tx_strategy(), 2..8), proptest::collection::vec(tx_strategy(), 2..7), stop, proptest::collection::vec(tx_strategy(), 1..5), prop_oneof![3 => Just(0u8), 1 => Just(1u8), 1 => Just(2u8), 1 => Just(3u8)])
+        .prop_map(|(qi, p, pre, phase, stop, after, second_crash)| Case { q: QUERIES[qi], p, pre, phase, stop, after, second_crash })
 }
 
 fn copy_dir(from: &std::path::Path, to: &std::path::Path) -> std::io::Result<()> {
@@ -243,6 +247,9 @@ async fn run_case(case: &Case, info: &mut CaseInfo, root: std::path::PathBuf) ->
     let first = s2.next(Duration::from_secs(10)).await.ok_or_else(|| Fail::infra("no first event after restart within 10 s"))?;
     m2.apply(&first)?;
     settle(&cl, &mut s2, &mut m2, &sql, &sub_db2, ncols, &[], "after the clean restart").await?;
+    if case.second_crash == 1 {
+        return second_life_crash(&mut cl, &root, &restart_dir, &id, info).await;
+    }
     let last_after = m2.last_change.unwrap_or(0);
     ensure!(last_after >= last_before, "change-log-kept", "the change log ends at {last_after} after the restart, the client had seen {last_before} before");
     // resuming from what the client had seen before: only ids, contiguous, ending where the log ends
@@ -255,7 +262,13 @@ async fn run_case(case: &Case, info: &mut CaseInfo, root: std::path::PathBuf) ->
         cl.tx(tx).await?;
     }
     cl.release_held().await?;
+    if case.second_crash == 2 {
+        return second_life_crash(&mut cl, &root, &restart_dir, &id, info).await;
+    }
     settle(&cl, &mut s2, &mut m2, &sql, &sub_db2, ncols, &[], "after new changes following the clean restart").await?;
+    if case.second_crash == 3 {
+        return second_life_crash(&mut cl, &root, &restart_dir, &id, info).await;
+    }
     let t0 = tokio::time::Instant::now();
     while m3.last_change != m2.last_change && t0.elapsed() < Duration::from_secs(8) {
         if let Some(ev) = s3.next(Duration::from_millis(100)).await {
@@ -274,6 +287,26 @@ async fn run_case(case: &Case, info: &mut CaseInfo, root: std::path::PathBuf) ->
         info.class("changes-recorded-during-shutdown");
     }
     info.nontrivial = last_before > 0 && m2.last_change.unwrap_or(0) > last_after;
+    cl.b.abandon_in_place().await;
+    Ok(())
+}
+
+/// a crash (image of the running node) in the second life of a restored subscription: it must not be
+/// served after the next start either
+async fn second_life_crash(cl: &mut Cluster, root: &std::path::Path, live_dir: &std::path::Path, id: &str, info: &mut CaseInfo) -> Result<(), Fail> {
+    let image = root.join("image2");
+    copy_dir(live_dir, &image).map_err(|e| Fail::infra(format!("image: {e}")))?;
+    let state = sub_state(&sub_db_path(&image, id));
+    ensure!(state.as_deref() != Some("completed"), "state-is-completed-only-after-a-clean-stop", "the crash image of a restored, live subscription carries meta.state = 'completed'");
+    let b3 = LiveAgent::start(&image, |_| {}).await.map_err(|e| Fail::new("node-restarts", format!("restart failed: {}", e.0)))?;
+    let old = std::mem::replace(&mut cl.b, b3);
+    old.abandon().await;
+    let s = open_stream(cl.b.api_addr, "GET", &format!("/v1/subscriptions/{id}"), &[], None).await.map_err(|e| Fail::infra(e.0))?;
+    ensure!(s.status == 404, "unclean-subscription-is-not-served", "after a crash in its second life the subscription {id} is still served: status {}", s.status);
+    let db = sub_db_path(&image, id);
+    ensure!(!db.exists(), "unclean-subscription-is-removed", "after a crash in its second life the subscription database {} still exists", db.display());
+    info.class("crash-in-second-life");
+    info.nontrivial = true;
     cl.b.abandon_in_place().await;
     Ok(())
 }
